@@ -68,8 +68,14 @@ def generate(seed: int, tier: str) -> Dict[str, Any]:
     agents = sorted(world["agents"])
     ro = rng.stream("ops")
     ops = []
-    for i in range(r.randint(1, 4)):
-        ops.append({"op": "turn", "agent": ro.choice(agents), "text": E.gen_text(ro), "turn_id": i, "now_ms": E.T0_MS + i * 1000,
+    texts = [E.gen_text(ro) for _ in range(r.randint(1, 2))]
+    for i in range(r.randint(1, 5)):
+        if ops and ro.chance(0.4):
+            # the budgets of the next slice differ from those of earlier ones (stage caches must not carry work across)
+            k = ro.choice(["t1_pops", "t1_iters", "t2_k", "t3_ops"])
+            ops.append({"op": "set_cfg", "path": ["scheduler", "budgets", k],
+                        "value": ro.choice({"t1_pops": [None, 0, 1, 2, 100], "t1_iters": [0, 1, 50], "t2_k": [0, 1, 64], "t3_ops": [0, 1, 3]}[k])})
+        ops.append({"op": "turn", "agent": ro.choice(agents), "text": ro.choice(texts), "turn_id": i, "now_ms": E.T0_MS + i * 1000,
                     "cost_ms": {s: ro.choice([0, 0, 1, 3, 10, 50, 500]) for s in ("T1", "T2", "T3", "T4", "Apply")}})
     return {"target": "orch", "world": world, "cfg": raw, "ops": ops}
 
@@ -197,6 +203,10 @@ def _orch(p: Dict[str, Any], stats: Dict[str, int]) -> List[Dict[str, Any]]:
                 budgets = dict((run.cfg.get("scheduler") or {}).get("budgets") or {})
                 quantum = int((run.cfg.get("scheduler") or {}).get("quantum_ms", 20))
                 for oi, op in enumerate(p["ops"]):
+                    if op["op"] != "turn":
+                        run.step(op)
+                        budgets = dict((run.cfg.get("scheduler") or {}).get("budgets") or {})
+                        continue
                     cost["cur"] = op.get("cost_ms") or {}
                     cost["spent"] = 0
                     before = {n: len(b.splitlines()) for n, b in E.read_dir(ee.logs).items()}
